@@ -756,6 +756,76 @@ class Facts:
                 out.append((st, val) if with_stmt else val)
         return out
 
+    def must_carry(self, fn, expr, param, depth=0):
+        """On every path to this use, the value of `expr` is computed from
+        parameter `param` of fn (must-flow; `atoms` is may-flow): a name is
+        followed through every reaching definition (and the parameter's
+        own binding), a conditional expression through both arms, any
+        other expression carries the value if it mentions a carrier outside
+        a condition."""
+        if depth > 6:
+            return False
+        if isinstance(expr, ast.Name):
+            from .cfg import ENTRY
+            params = set(Q.params(fn.node))
+            try:
+                rd = self.reaching_defs(fn, expr, with_stmt=True)
+                g = self.cfg(fn)
+                use = g.stmt_of(expr)
+            except Exception:
+                return False
+            alldefs = [st for st, v in self._all_defs(fn, expr.id)]
+            initial = expr.id in params and (
+                not alldefs or g.reaches(ENTRY, use, avoiding=alldefs) or
+                use in alldefs and not any(
+                    d is not use for d in alldefs))
+            if initial and expr.id != param:
+                return False
+            if not rd and not initial:
+                return False
+            for st, v in rd:
+                if isinstance(st, ast.AugAssign) and v is None:
+                    # x += more: keeps what x carried before
+                    continue
+                if v is None or not self.must_carry(fn, v, param, depth + 1):
+                    return False
+            return True
+        if isinstance(expr, ast.IfExp):
+            return self.must_carry(fn, expr.body, param, depth + 1) and \
+                self.must_carry(fn, expr.orelse, param, depth + 1)
+        if isinstance(expr, ast.BoolOp):
+            return any(self.must_carry(fn, v, param, depth + 1)
+                       for v in expr.values)
+        if isinstance(expr, (ast.Constant, ast.Lambda)):
+            return False
+        subs = []
+        if isinstance(expr, ast.Call):
+            subs = list(expr.args) + [k.value for k in expr.keywords]
+            if isinstance(expr.func, ast.Attribute):
+                subs.append(expr.func.value)
+        else:
+            subs = [c for c in ast.iter_child_nodes(expr)
+                    if isinstance(c, ast.expr)]
+        return any(self.must_carry(
+            fn, c.value if isinstance(c, ast.Starred) else c, param,
+            depth + 1) for c in subs)
+
+    def _all_defs(self, fn, name):
+        out = []
+        for n in walk_no_nested(fn.node):
+            tg = []
+            if isinstance(n, ast.Assign):
+                tg = n.targets
+            elif isinstance(n, (ast.AugAssign, ast.AnnAssign)):
+                tg = [n.target]
+            elif isinstance(n, (ast.For, ast.AsyncFor)):
+                tg = [n.target]
+            for t in tg:
+                if any(isinstance(x, ast.Name) and x.id == name
+                       for x in ast.walk(t)):
+                    out.append((n, getattr(n, 'value', None)))
+        return out
+
     def consts(self, fn, pred):
         """Constant nodes of fn (and nested functions) whose value satisfies
         pred."""
